@@ -2016,10 +2016,12 @@ struct TemplateCore {
     static QOperation getOperation(const Char_T *content, SizeT &offset, const SizeT end_offset) noexcept {
         using QOperationSymbol = QOperationSymbol_T<Char_T>;
 
+        // The second unit of a two-unit operator has to belong to the expression as well: what follows it
+        // (the closing quote of case="...", which can be any unit) is not part of it.
         while (offset < end_offset) {
             switch (content[offset]) {
                 case QOperationSymbol::OrExp: { // ||
-                    if (content[(offset + 1)] == QOperationSymbol::OrExp) {
+                    if (((offset + 1) < end_offset) && (content[(offset + 1)] == QOperationSymbol::OrExp)) {
                         return QOperation::Or;
                     }
 
@@ -2027,7 +2029,7 @@ struct TemplateCore {
                 }
 
                 case QOperationSymbol::AndExp: { // &&
-                    if (content[(offset + 1)] == QOperationSymbol::AndExp) {
+                    if (((offset + 1) < end_offset) && (content[(offset + 1)] == QOperationSymbol::AndExp)) {
                         return QOperation::And;
                     }
 
@@ -2035,7 +2037,7 @@ struct TemplateCore {
                 }
 
                 case QOperationSymbol::GreaterExp: { // > or >=
-                    if (content[(offset + 1)] == QOperationSymbol::EqualExp) {
+                    if (((offset + 1) < end_offset) && (content[(offset + 1)] == QOperationSymbol::EqualExp)) {
                         return QOperation::GreaterOrEqual;
                     }
 
@@ -2043,7 +2045,7 @@ struct TemplateCore {
                 }
 
                 case QOperationSymbol::LessExp: { // < or <=
-                    if (content[(offset + 1)] == QOperationSymbol::EqualExp) {
+                    if (((offset + 1) < end_offset) && (content[(offset + 1)] == QOperationSymbol::EqualExp)) {
                         return QOperation::LessOrEqual;
                     }
 
@@ -2051,7 +2053,7 @@ struct TemplateCore {
                 }
 
                 case QOperationSymbol::NotExp: { // !=
-                    if (content[(offset + 1)] == QOperationSymbol::EqualExp) {
+                    if (((offset + 1) < end_offset) && (content[(offset + 1)] == QOperationSymbol::EqualExp)) {
                         return QOperation::NotEqual;
                     }
 
@@ -2059,7 +2061,7 @@ struct TemplateCore {
                 }
 
                 case QOperationSymbol::EqualExp: { // ==
-                    if (content[(offset + 1)] == QOperationSymbol::EqualExp) {
+                    if (((offset + 1) < end_offset) && (content[(offset + 1)] == QOperationSymbol::EqualExp)) {
                         return QOperation::Equal;
                     }
 
